@@ -469,7 +469,7 @@ def run_regressions(pid, mod, avoid, total):
         with open(os.path.join(d, fn)) as f:
             rec = json.load(f)
         s = streams.get(rec["stream"])
-        if s is None or s.machine is not None:
+        if s is None:
             continue
         st = Stats()
         try:
